@@ -635,11 +635,11 @@ theorem mem_eraseTbl {tbl : List Loaded} {ns : Str} {l : Loaded} :
   simp [eraseTbl]
 
 /-- the lazy → eager transition: the entry of `n.ns` leaves the lazy table, `n` joins the eager one -/
-theorem Inv.promote {fs : FS} {s : Repo} (hinv : Inv fs s) (n : Loaded) (stale : Bool)
+theorem Inv.promote {fs : FS} {s : Repo} (hinv : Inv fs s) (n : Loaded)
     (hE : ∀ l ∈ s.typelibs, l.ns ≠ n.ns)
     (hdeps : ∀ d ∈ n.tl.hdr.deps, DepLoaded s d)
     (hsrc : n.source = builtinSource ∨ FileAt fs n.source n.tl.hdr) :
-    Inv fs { s with lazy := eraseTbl s.lazy n.ns, typelibs := s.typelibs ++ [n], staleKey := stale } := by
+    Inv fs { s with lazy := eraseTbl s.lazy n.ns, typelibs := s.typelibs ++ [n] } := by
   have hsub : ∀ l ∈ s.typelibs, l ∈ s.typelibs ++ [n] := fun l hl => List.mem_append_left _ hl
   refine ⟨?_, ?_, ?_, ?_, ?_⟩
   · simp only [List.map_append, List.map_cons, List.map_nil]
@@ -682,26 +682,41 @@ theorem Inv.congr {fs : FS} {s s' : Repo} (hinv : Inv fs s) (h1 : s'.typelibs = 
 
 /-! ### the status of a namespace -/
 
+theorem check_cases (t : Typelib) (ver : Option Str) :
+    (checkVersionConflict t ver = .found t ∧ ∀ v, ver = some v → t.hdr.ver = v) ∨
+    ∃ v, checkVersionConflict t ver = .conflict v := by
+  unfold checkVersionConflict
+  cases ver with
+  | none => exact Or.inl ⟨rfl, by intro v hv; cases hv⟩
+  | some v =>
+    by_cases hv : v = t.hdr.ver
+    · left
+      simp only [hv, if_true]
+      exact ⟨trivial, by intro v' hv'; cases hv'; rfl⟩
+    · right
+      exact ⟨t.hdr.ver, by simp [hv]⟩
+
+theorem check_found {t tl : Typelib} {ver : Option Str} (h : checkVersionConflict t ver = .found tl) :
+    t = tl ∧ ∀ v, ver = some v → tl.hdr.ver = v := by
+  rcases check_cases t ver with ⟨hc, hv⟩ | ⟨v, hc⟩
+  · rw [hc] at h
+    cases h
+    exact ⟨rfl, hv⟩
+  · rw [hc] at h; cases h
+
+theorem check_not_absent (t : Typelib) (ver : Option Str) (o : Option Loaded) :
+    checkVersionConflict t ver ≠ .absent o := by
+  rcases check_cases t ver with ⟨hc, _⟩ | ⟨v, hc⟩ <;> rw [hc] <;> simp
+
 theorem status_found {s : Repo} {ns : Str} {ver : Option Str} {lazy : Bool} {tl : Typelib}
     (h : getRegisteredStatus s ns ver lazy = .found tl) :
     tl.hdr.ns = ns ∧ (∀ v, ver = some v → tl.hdr.ver = v) ∧
       ((∃ l ∈ s.typelibs, l.tl = tl) ∨ (lazy = true ∧ ∃ l ∈ s.lazy, l.tl = tl)) := by
   unfold getRegisteredStatus at h
-  have hc : ∀ t : Typelib, checkVersionConflict t ver = .found tl →
-      t = tl ∧ ∀ v, ver = some v → tl.hdr.ver = v := by
-    intro t ht
-    unfold checkVersionConflict at ht
-    cases ver with
-    | none => simp at ht; exact ⟨ht, by intro v hv; cases hv⟩
-    | some v =>
-      simp only at ht
-      split_ifs at ht with hv
-      · simp at ht; subst ht
-        exact ⟨rfl, by intro v' hv'; cases hv'; exact hv.symm⟩
   cases hE : lookupTbl s.typelibs ns with
   | some l =>
     simp only [hE] at h
-    obtain ⟨h1, h2⟩ := hc l.tl h
+    obtain ⟨h1, h2⟩ := check_found h
     obtain ⟨hm, hn⟩ := lookupTbl_some hE
     exact ⟨by rw [← h1]; exact hn, h2, Or.inl ⟨l, hm, h1⟩⟩
   | none =>
@@ -710,106 +725,82 @@ theorem status_found {s : Repo} {ns : Str} {ver : Option Str} {lazy : Bool} {tl 
     | none => simp [hL] at h
     | some l =>
       simp only [hL] at h
-      split_ifs at h with hl
-      obtain ⟨h1, h2⟩ := hc l.tl h
-      obtain ⟨hm, hn⟩ := lookupTbl_some hL
-      refine ⟨by rw [← h1]; exact hn, h2, Or.inr ⟨?_, l, hm, h1⟩⟩
-      simpa using hl
+      cases lazy with
+      | false =>
+        simp only [Bool.not_false, if_true] at h
+        rcases check_cases l.tl ver with ⟨hc, _⟩ | ⟨v, hc⟩ <;> rw [hc] at h <;> simp at h
+      | true =>
+        simp only [Bool.not_true, Bool.false_eq_true, if_false] at h
+        obtain ⟨h1, h2⟩ := check_found h
+        obtain ⟨hm, hn⟩ := lookupTbl_some hL
+        exact ⟨by rw [← h1]; exact hn, h2, Or.inr ⟨rfl, l, hm, h1⟩⟩
 
-theorem status_absent {s : Repo} {ns : Str} {ver : Option Str} {lazy b : Bool}
-    (h : getRegisteredStatus s ns ver lazy = .absent b) :
-    lookupTbl s.typelibs ns = none ∧ (lazy = true → lookupTbl s.lazy ns = none) := by
+/-- NULL, no conflict, `*lazy_status` FALSE: the namespace is in neither table -/
+theorem status_absent_none {s : Repo} {ns : Str} {ver : Option Str} {lazy : Bool}
+    (h : getRegisteredStatus s ns ver lazy = .absent none) :
+    lookupTbl s.typelibs ns = none ∧ lookupTbl s.lazy ns = none := by
   unfold getRegisteredStatus at h
-  have hc : ∀ t : Typelib, checkVersionConflict t ver ≠ .absent b := by
-    intro t
-    unfold checkVersionConflict
-    cases ver with
-    | none => simp
-    | some v => simp only; split_ifs <;> simp
   cases hE : lookupTbl s.typelibs ns with
-  | some l => simp only [hE] at h; exact absurd h (hc l.tl)
+  | some l => simp only [hE] at h; exact absurd h (check_not_absent l.tl ver none)
   | none =>
     refine ⟨rfl, ?_⟩
     simp only [hE] at h
     cases hL : lookupTbl s.lazy ns with
-    | none => intro _; rfl
+    | none => rfl
     | some l =>
       simp only [hL] at h
-      intro hl
-      subst hl
-      simp at h
-      exact absurd h (hc l.tl)
+      cases lazy with
+      | false =>
+        simp only [Bool.not_false, if_true] at h
+        rcases check_cases l.tl ver with ⟨hc, _⟩ | ⟨v, hc⟩ <;> rw [hc] at h <;> simp at h
+      | true =>
+        simp only [Bool.not_true, Bool.false_eq_true, if_false] at h
+        exact absurd h (check_not_absent l.tl ver none)
 
-/-! ### the ghost flag `staleKey` is never reset -/
+/-- NULL, no conflict, `*lazy_status` TRUE: lazily loaded at an agreeing version, LAZY flag absent -/
+theorem status_absent_some {s : Repo} {ns : Str} {ver : Option Str} {lazy : Bool} {l : Loaded}
+    (h : getRegisteredStatus s ns ver lazy = .absent (some l)) :
+    lookupTbl s.typelibs ns = none ∧ lookupTbl s.lazy ns = some l ∧ lazy = false ∧
+      ∀ v, ver = some v → l.tl.hdr.ver = v := by
+  unfold getRegisteredStatus at h
+  cases hE : lookupTbl s.typelibs ns with
+  | some l' => simp only [hE] at h; exact absurd h (check_not_absent l'.tl ver _)
+  | none =>
+    simp only [hE] at h
+    cases hL : lookupTbl s.lazy ns with
+    | none => simp [hL] at h
+    | some l' =>
+      simp only [hL] at h
+      cases lazy with
+      | false =>
+        simp only [Bool.not_false, if_true] at h
+        rcases check_cases l'.tl ver with ⟨hc, hv⟩ | ⟨v, hc⟩
+        · rw [hc] at h
+          simp only [Status.absent.injEq, Option.some.injEq] at h
+          subst h
+          exact ⟨rfl, rfl, rfl, hv⟩
+        · rw [hc] at h; simp at h
+      | true =>
+        simp only [Bool.not_true, Bool.false_eq_true, if_false] at h
+        exact absurd h (check_not_absent l'.tl ver _)
 
-def StaleMono (req : Req) : Prop := ∀ s dn dv, s.staleKey = true → (req s dn dv).1.staleKey = true
-
-theorem loadDeps_stale {req : Req} (h : StaleMono req) : ∀ deps s, s.staleKey = true →
-    (loadDepsWith req s deps).1.staleKey = true := by
-  intro deps
-  induction deps with
-  | nil => intro s hs; simpa [loadDepsWith] using hs
-  | cons d ds ih =>
-    intro s hs
-    unfold loadDepsWith
-    cases hsd : splitDep d with
-    | none => simpa using hs
-    | some p =>
-      obtain ⟨dn, dv⟩ := p
-      simp only
-      have hr := h s dn dv hs
-      cases hq : req s dn dv with
-      | mk s' r =>
-        rw [hq] at hr
-        cases r with
-        | ok t => simp only; exact ih s' hr
-        | error e => simpa using hr
-
-theorem register_stale {req : Req} (h : StaleMono req) (s : Repo) (src : Str) (lazy : Bool) (tl : Typelib)
-    (hs : s.staleKey = true) : (registerInternalWith req s src lazy tl).1.staleKey = true := by
-  unfold registerInternalWith
-  cases lazy with
-  | true =>
-    simp only [if_true]
-    split_ifs <;> simpa using hs
-  | false =>
-    simp only [Bool.false_eq_true, if_false]
-    have hd := loadDeps_stale h tl.hdr.deps s hs
-    cases hq : loadDepsWith req s tl.hdr.deps with
-    | mk s1 r =>
-      rw [hq] at hd
-      cases r with
-      | error e => simpa using hd
-      | ok u =>
-        simp only
-        cases lookupTbl s1.lazy tl.hdr.ns with
-        | some l =>
-          have hd' : s1.staleKey = true := by simpa using hd
-          simp [hd']
-        | none => simpa using hd
-
-theorem require_stale (fs : FS) : ∀ fuel s ns ver lazy path, s.staleKey = true →
-    (requireInternal fs fuel s ns ver lazy path).1.staleKey = true := by
-  intro fuel
-  induction fuel with
-  | zero => intro s ns ver lazy path hs; simpa [requireInternal] using hs
-  | succ fuel ih =>
-    intro s ns ver lazy path hs
-    unfold requireInternal
-    cases getRegisteredStatus s ns ver lazy with
-    | found tl => simpa using hs
-    | conflict v => simpa using hs
-    | absent b =>
-      simp only
-      split
-      · simpa using hs
-      · rename_i f _
-        split_ifs
-        · simpa using hs
-        · simpa using hs
-        · apply register_stale
-          · intro s' dn dv hs'; exact ih s' dn (some dv) false s'.searchPath hs'
-          · simpa using hs
+theorem lookupTbl_of_mem : ∀ (tbl : List Loaded) (l : Loaded), l ∈ tbl → (tbl.map Loaded.ns).Nodup →
+    lookupTbl tbl l.ns = some l := by
+  intro tbl
+  induction tbl with
+  | nil => intro l hl; cases hl
+  | cons x xs ih =>
+    intro l hl hnd
+    simp only [List.map_cons, List.nodup_cons] at hnd
+    rcases List.mem_cons.mp hl with rfl | hl
+    · simp [lookupTbl]
+    · have hne : x.ns ≠ l.ns := by
+        intro heq
+        exact hnd.1 (heq ▸ List.mem_map_of_mem hl)
+      have := ih l hl hnd.2
+      simp only [lookupTbl] at this ⊢
+      rw [List.find?_cons_of_neg (by simpa using hne)]
+      exact this
 
 /-! ### what one require / load does to the state -/
 
@@ -821,78 +812,74 @@ def New (rank : Str → Nat) (s s' : Repo) (bound : Nat) : Prop :=
   (∀ l ∈ s'.typelibs, l ∈ s.typelibs ∨ rank l.ns < bound) ∧
   (∀ l ∈ s'.lazy, l ∈ s.lazy ∨ rank l.ns < bound)
 
+/-- the lazily loaded typelibs record acyclic dependencies (those loaded from files do by `Ranked`;
+    this also covers the ones loaded from memory) -/
+def LazyRanked (rank : Str → Nat) (s : Repo) : Prop := ∀ l ∈ s.lazy, HdrRanked rank l.tl.hdr
+
 structure Post (fs : FS) (rank : Str → Nat) (s s' : Repo) (bound : Nat) : Prop where
   inv : Inv fs s'
+  lzr : LazyRanked rank s'
   ext : Ext s s'
   new : New rank s s' bound
   path : s'.searchPath = s.searchPath
 
-theorem Post.refl {fs : FS} {rank : Str → Nat} {s : Repo} (h : Inv fs s) (b : Nat) : Post fs rank s s b :=
-  ⟨h, fun _ h => h, ⟨fun _ h => Or.inl h, fun _ h => Or.inl h⟩, rfl⟩
+theorem Post.refl {fs : FS} {rank : Str → Nat} {s : Repo} (h : Inv fs s) (hl : LazyRanked rank s) (b : Nat) :
+    Post fs rank s s b :=
+  ⟨h, hl, fun _ h => h, ⟨fun _ h => Or.inl h, fun _ h => Or.inl h⟩, rfl⟩
 
 theorem Post.weaken {fs : FS} {rank : Str → Nat} {s s' : Repo} {b b' : Nat} (h : Post fs rank s s' b)
     (hb : b ≤ b') : Post fs rank s s' b' :=
-  ⟨h.inv, h.ext, ⟨fun l hl => (h.new.1 l hl).imp id (fun x => Nat.lt_of_lt_of_le x hb),
+  ⟨h.inv, h.lzr, h.ext, ⟨fun l hl => (h.new.1 l hl).imp id (fun x => Nat.lt_of_lt_of_le x hb),
     fun l hl => (h.new.2 l hl).imp id (fun x => Nat.lt_of_lt_of_le x hb)⟩, h.path⟩
 
 theorem Post.trans {fs : FS} {rank : Str → Nat} {s s1 s2 : Repo} {b : Nat} (h1 : Post fs rank s s1 b)
     (h2 : Post fs rank s1 s2 b) : Post fs rank s s2 b :=
-  ⟨h2.inv, fun l hl => h2.ext l (h1.ext l hl),
+  ⟨h2.inv, h2.lzr, fun l hl => h2.ext l (h1.ext l hl),
    ⟨fun l hl => (h2.new.1 l hl).elim (fun x => h1.new.1 l x) Or.inr,
     fun l hl => (h2.new.2 l hl).elim (fun x => h1.new.2 l x) Or.inr⟩,
    h2.path.trans h1.path⟩
 
 /-- contract of the recursive require used for dependencies -/
 def ReqOK (fs : FS) (rank : Str → Nat) (req : Req) : Prop :=
-  ∀ s dn dv, Inv fs s → (req s dn dv).1.staleKey = false →
+  ∀ s dn dv, Inv fs s → LazyRanked rank s →
     Post fs rank s (req s dn dv).1 (rank dn + 1) ∧
     (∀ tl, (req s dn dv).2 = .ok tl → ∃ l ∈ (req s dn dv).1.typelibs, l.ns = dn ∧ l.tl.hdr.ver = dv)
 
-theorem bool_false_of {b : Bool} (h : b = true → False) : b = false := by
-  cases b with
-  | false => rfl
-  | true => exact absurd rfl h
-
-theorem loadDeps_post {fs : FS} {rank : Str → Nat} {req : Req} (hreq : ReqOK fs rank req)
-    (hmono : StaleMono req) : ∀ deps s bound, Inv fs s →
+theorem loadDeps_post {fs : FS} {rank : Str → Nat} {req : Req} (hreq : ReqOK fs rank req) :
+    ∀ deps s bound, Inv fs s → LazyRanked rank s →
     (∀ d ∈ deps, ∀ dn dv, splitDep d = some (dn, dv) → rank dn < bound) →
-    (loadDepsWith req s deps).1.staleKey = false →
     Post fs rank s (loadDepsWith req s deps).1 bound ∧
     (∀ u, (loadDepsWith req s deps).2 = .ok u → ∀ d ∈ deps, DepLoaded (loadDepsWith req s deps).1 d) := by
   intro deps
   induction deps with
   | nil =>
-    intro s bound hinv _ _
+    intro s bound hinv hlzr _
     simp only [loadDepsWith]
-    exact ⟨Post.refl hinv bound, by intro _ _ d hd; cases hd⟩
+    exact ⟨Post.refl hinv hlzr bound, by intro _ _ d hd; cases hd⟩
   | cons d ds ih =>
-    intro s bound hinv hrank hub
-    unfold loadDepsWith at hub ⊢
+    intro s bound hinv hlzr hrank
+    unfold loadDepsWith
     cases hsd : splitDep d with
     | none =>
-      simp only [hsd] at hub ⊢
-      exact ⟨Post.refl hinv bound, by intro _ h; cases h⟩
+      simp only
+      exact ⟨Post.refl hinv hlzr bound, by intro _ h; cases h⟩
     | some p =>
       obtain ⟨dn, dv⟩ := p
-      simp only [hsd] at hub ⊢
+      simp only
       have hdn : rank dn < bound := hrank d List.mem_cons_self dn dv hsd
+      have hreq' := hreq s dn dv hinv hlzr
       cases hq : req s dn dv with
       | mk s' r =>
-        rw [hq] at hub
-        have hreq' := hreq s dn dv hinv
         rw [hq] at hreq'
+        obtain ⟨hp, hok⟩ := hreq'
         cases r with
         | error e =>
-          simp only at hub ⊢
-          exact ⟨(hreq' hub).1.weaken hdn, by intro _ h; cases h⟩
+          simp only
+          exact ⟨hp.weaken hdn, by intro _ h; cases h⟩
         | ok t =>
-          simp only at hub ⊢
-          have hub' : s'.staleKey = false := bool_false_of (fun h => by
-            have := loadDeps_stale hmono ds s' h
-            rw [hub] at this; cases this)
-          obtain ⟨hp, hok⟩ := hreq' hub'
-          obtain ⟨ip, iok⟩ := ih s' bound hp.inv
-            (fun d' hd' => hrank d' (List.mem_cons_of_mem _ hd')) hub
+          simp only
+          obtain ⟨ip, iok⟩ := ih s' bound hp.inv hp.lzr
+            (fun d' hd' => hrank d' (List.mem_cons_of_mem _ hd'))
           refine ⟨(hp.weaken hdn).trans ip, ?_⟩
           intro u hu d' hd'
           rcases List.mem_cons.mp hd' with rfl | hd'
@@ -903,33 +890,41 @@ theorem loadDeps_post {fs : FS} {rank : Str → Nat} {req : Req} (hreq : ReqOK f
 theorem Post.congr_left {fs : FS} {rank : Str → Nat} {s0 s s' : Repo} {b : Nat}
     (h1 : s0.typelibs = s.typelibs) (h2 : s0.lazy = s.lazy) (h3 : s0.searchPath = s.searchPath)
     (h : Post fs rank s0 s' b) : Post fs rank s s' b := by
-  obtain ⟨hi, he, hn, hp⟩ := h
+  obtain ⟨hi, hz, he, hn, hp⟩ := h
   unfold Ext at he
   unfold New at hn
   rw [h1] at he
   rw [h1, h2] at hn
-  exact ⟨hi, he, hn, hp.trans h3⟩
+  exact ⟨hi, hz, he, hn, hp.trans h3⟩
 
+/-- `register_internal` under the invariant.  `hlz`: a lazy entry of this namespace, if there is one,
+    holds this very typelib (the promotion of `require_internal` / `load_typelib`). -/
 theorem register_post {fs : FS} {rank : Str → Nat} {req : Req} (hreq : ReqOK fs rank req)
-    (hmono : StaleMono req) (s : Repo) (src : Str) (lazy : Bool) (tl : Typelib) (hinv : Inv fs s)
+    (s : Repo) (src : Str) (lazy : Bool) (tl : Typelib) (hinv : Inv fs s) (hlzr : LazyRanked rank s)
     (hsrc : src = builtinSource ∨ FileAt fs src tl.hdr) (hrank : HdrRanked rank tl.hdr)
     (habsE : lookupTbl s.typelibs tl.hdr.ns = none)
     (habsL : lazy = true → lookupTbl s.lazy tl.hdr.ns = none)
-    (hub : (registerInternalWith req s src lazy tl).1.staleKey = false) :
+    (hlz : ∀ l ∈ s.lazy, l.ns = tl.hdr.ns → l.tl = tl) :
     Post fs rank s (registerInternalWith req s src lazy tl).1 (rank tl.hdr.ns + 1) ∧
     (∀ t, (registerInternalWith req s src lazy tl).2 = .ok t → t = tl ∧
        (lazy = false → ∃ l ∈ (registerInternalWith req s src lazy tl).1.typelibs, l.tl = tl ∧
           (lookupTbl s.lazy tl.hdr.ns = none → l.source = src))) := by
-  unfold registerInternalWith at hub ⊢
+  unfold registerInternalWith
   have hfE0 := lookupTbl_none.mp habsE
   cases lazy with
   | true =>
     have hL := habsL rfl
     have hfL := lookupTbl_none.mp hL
-    simp only [if_true, hL, Option.isSome_none, Bool.false_eq_true, if_false] at hub ⊢
+    simp only [if_true, hL, Option.isSome_none, Bool.false_eq_true, if_false]
     rw [insertTbl_fresh s.lazy src tl hfL]
-    refine ⟨⟨hinv.addLazy ⟨src, tl⟩ hfE0 hfL hsrc, fun _ h => h,
+    refine ⟨⟨hinv.addLazy ⟨src, tl⟩ hfE0 hfL hsrc, ?_, fun _ h => h,
       ⟨fun _ h => Or.inl h, ?_⟩, rfl⟩, ?_⟩
+    · intro l hl
+      rcases List.mem_append.mp hl with h | h
+      · exact hlzr l h
+      · simp only [List.mem_singleton] at h
+        subst h
+        exact hrank
     · intro l hl
       rcases List.mem_append.mp hl with h | h
       · exact Or.inl h
@@ -941,36 +936,41 @@ theorem register_post {fs : FS} {rank : Str → Nat} {req : Req} (hreq : ReqOK f
       simp only [Except.ok.injEq] at ht
       exact ⟨ht.symm, by intro h; cases h⟩
   | false =>
-    simp only [Bool.false_eq_true, if_false] at hub ⊢
-    have hld := loadDeps_post hreq hmono tl.hdr.deps s (rank tl.hdr.ns) hinv hrank
+    simp only [Bool.false_eq_true, if_false]
+    have hld := loadDeps_post hreq tl.hdr.deps s (rank tl.hdr.ns) hinv hlzr hrank
     cases hq : loadDepsWith req s tl.hdr.deps with
     | mk s1 r =>
-      rw [hq] at hub hld
+      rw [hq] at hld
+      obtain ⟨hp, hdeps⟩ := hld
       cases r with
       | error e =>
-        simp only at hub ⊢
-        exact ⟨(hld hub).1.weaken (Nat.le_succ _), by intro t h; cases h⟩
+        simp only
+        exact ⟨hp.weaken (Nat.le_succ _), by intro t h; cases h⟩
       | ok u =>
-        simp only at hub ⊢
+        simp only
+        have hfE : ∀ l ∈ s1.typelibs, l.ns ≠ tl.hdr.ns := by
+          intro l hl heq
+          rcases hp.new.1 l hl with h | h
+          · exact hfE0 l h heq
+          · rw [heq] at h; exact Nat.lt_irrefl _ h
         cases hL : lookupTbl s1.lazy tl.hdr.ns with
         | some l =>
-          -- the lazy → eager transition: `staleKey = false` says the lazily loaded typelib and
-          -- the one registered now have the same header, so the re-used source is right
-          simp only [hL, Bool.or_eq_false_iff, decide_eq_false_iff_not, ne_eq, not_not] at hub ⊢
-          obtain ⟨hub1, hhdr⟩ := hub
-          obtain ⟨hp, hdeps⟩ := hld hub1
-          have hfE : ∀ l ∈ s1.typelibs, l.ns ≠ tl.hdr.ns := by
-            intro l hl heq
-            rcases hp.new.1 l hl with h | h
-            · exact hfE0 l h heq
-            · rw [heq] at h; exact Nat.lt_irrefl _ h
-          obtain ⟨hlm, _⟩ := lookupTbl_some hL
+          -- the lazy → eager transition: the entry is one of `s` (nothing of this rank is new),
+          -- so it holds `tl` itself and its source is the right one
+          simp only
+          obtain ⟨hlm, hln⟩ := lookupTbl_some hL
+          have hold : l ∈ s.lazy := by
+            rcases hp.new.2 l hlm with h | h
+            · exact h
+            · rw [hln] at h; exact absurd h (Nat.lt_irrefl _)
+          have htl : l.tl = tl := hlz l hold hln
           rw [insertTbl_fresh s1.typelibs l.source tl hfE]
           have hsrc' : l.source = builtinSource ∨ FileAt fs l.source tl.hdr := by
-            rw [← hhdr]; exact hp.inv.paths l (List.mem_append_right _ hlm)
-          have hinv' := hp.inv.promote ⟨l.source, tl⟩ (s1.staleKey || decide (¬ l.tl.hdr = tl.hdr)) hfE
-            (hdeps u rfl) hsrc'
-          refine ⟨⟨hinv', fun x hx => List.mem_append_left _ (hp.ext x hx), ⟨?_, ?_⟩, hp.path⟩, ?_⟩
+            rw [← htl]; exact hp.inv.paths l (List.mem_append_right _ hlm)
+          have hinv' := hp.inv.promote ⟨l.source, tl⟩ hfE (hdeps u rfl) hsrc'
+          refine ⟨⟨hinv', ?_, fun x hx => List.mem_append_left _ (hp.ext x hx), ⟨?_, ?_⟩, hp.path⟩, ?_⟩
+          · intro x hx
+            exact hp.lzr x (mem_eraseTbl.mp hx).1
           · intro x hx
             rcases List.mem_append.mp hx with h | h
             · exact (hp.new.1 x h).imp id (fun y => Nat.lt_succ_of_lt y)
@@ -984,22 +984,13 @@ theorem register_post {fs : FS} {rank : Str → Nat} {req : Req} (hreq : ReqOK f
             simp only [Except.ok.injEq] at ht
             refine ⟨ht.symm, fun _ => ⟨⟨l.source, tl⟩, by simp, rfl, ?_⟩⟩
             intro hnone
-            exfalso
-            rcases hp.new.2 l hlm with h | h
-            · exact lookupTbl_none.mp hnone l h (lookupTbl_some hL).2
-            · rw [(lookupTbl_some hL).2] at h; exact Nat.lt_irrefl _ h
+            exact absurd hln (lookupTbl_none.mp hnone l hold)
         | none =>
-          simp only [hL] at hub ⊢
-          obtain ⟨hp, hdeps⟩ := hld hub
-          have hfE : ∀ l ∈ s1.typelibs, l.ns ≠ tl.hdr.ns := by
-            intro l hl heq
-            rcases hp.new.1 l hl with h | h
-            · exact hfE0 l h heq
-            · rw [heq] at h; exact Nat.lt_irrefl _ h
+          simp only
           have hfL := lookupTbl_none.mp hL
           rw [insertTbl_fresh s1.typelibs src tl hfE]
           have hinv' := hp.inv.addEager ⟨src, tl⟩ hfE hfL (hdeps u rfl) hsrc
-          refine ⟨⟨hinv', fun l hl => List.mem_append_left _ (hp.ext l hl), ⟨?_, ?_⟩, hp.path⟩, ?_⟩
+          refine ⟨⟨hinv', hp.lzr, fun l hl => List.mem_append_left _ (hp.ext l hl), ⟨?_, ?_⟩, hp.path⟩, ?_⟩
           · intro l hl
             rcases List.mem_append.mp hl with h | h
             · exact (hp.new.1 l h).imp id (fun x => Nat.lt_succ_of_lt x)
@@ -1038,10 +1029,25 @@ theorem findFile_version {fs : FS} {ns v : Str} {path : List Str} {f : Mapped}
   obtain ⟨g, _, rfl⟩ := h
   rfl
 
+/-- the hypotheses of `register_post` for the promotion of the lazy entry `l` -/
+theorem promote_hyps {fs : FS} {rank : Str → Nat} {s : Repo} {ns : Str} {l : Loaded} (hinv : Inv fs s)
+    (hlzr : LazyRanked rank s) (hE : lookupTbl s.typelibs ns = none) (hL : lookupTbl s.lazy ns = some l) :
+    l.ns = ns ∧ l ∈ s.lazy ∧ (l.source = builtinSource ∨ FileAt fs l.source l.tl.hdr) ∧
+    HdrRanked rank l.tl.hdr ∧ lookupTbl s.typelibs l.tl.hdr.ns = none ∧
+    (∀ l' ∈ s.lazy, l'.ns = l.tl.hdr.ns → l'.tl = l.tl) := by
+  obtain ⟨hm, hn⟩ := lookupTbl_some hL
+  refine ⟨hn, hm, hinv.paths l (List.mem_append_right _ hm), hlzr l hm, ?_, ?_⟩
+  · have : l.tl.hdr.ns = ns := hn
+    rw [this]; exact hE
+  · intro l' hl' hn'
+    have h1 := lookupTbl_of_mem s.lazy l' hl' hinv.nodupL
+    have : l'.ns = ns := hn'.trans hn
+    rw [this, hL] at h1
+    cases h1; rfl
+
 /-- one `require_internal` under the invariant, for acyclic dependencies -/
 theorem require_post {fs : FS} {rank : Str → Nat} (hr : Ranked fs rank) :
-    ∀ fuel s ns ver lazy path, Inv fs s →
-    (requireInternal fs fuel s ns ver lazy path).1.staleKey = false →
+    ∀ fuel s ns ver lazy path, Inv fs s → LazyRanked rank s →
     Post fs rank s (requireInternal fs fuel s ns ver lazy path).1 (rank ns + 1) ∧
     (∀ tl, (requireInternal fs fuel s ns ver lazy path).2 = .ok tl →
       tl.hdr.ns = ns ∧ (∀ v, ver = some v → tl.hdr.ver = v) ∧
@@ -1049,26 +1055,24 @@ theorem require_post {fs : FS} {rank : Str → Nat} (hr : Ranked fs rank) :
   intro fuel
   induction fuel with
   | zero =>
-    intro s ns ver lazy path hinv _
+    intro s ns ver lazy path hinv hlzr
     simp only [requireInternal]
-    exact ⟨Post.refl hinv _, by intro tl h; cases h⟩
+    exact ⟨Post.refl hinv hlzr _, by intro tl h; cases h⟩
   | succ fuel ih =>
-    intro s ns ver lazy path hinv hub
+    intro s ns ver lazy path hinv hlzr
     have hreqOK : ReqOK fs rank (fun s' dn dv => requireInternal fs fuel s' dn (some dv) false s'.searchPath) := by
-      intro s' dn dv hinv' hub'
-      obtain ⟨hp, hok⟩ := ih s' dn (some dv) false s'.searchPath hinv' hub'
+      intro s' dn dv hinv' hlzr'
+      obtain ⟨hp, hok⟩ := ih s' dn (some dv) false s'.searchPath hinv' hlzr'
       refine ⟨hp, ?_⟩
       intro tl htl
       obtain ⟨h1, h2, h3⟩ := hok tl htl
       obtain ⟨l, hl, hlt⟩ := h3 rfl
       exact ⟨l, hl, by unfold Loaded.ns; rw [hlt]; exact h1, by rw [hlt]; exact h2 dv rfl⟩
-    have hmono : StaleMono (fun s' dn dv => requireInternal fs fuel s' dn (some dv) false s'.searchPath) :=
-      fun s' dn dv hs' => require_stale fs fuel s' dn (some dv) false s'.searchPath hs'
-    unfold requireInternal at hub ⊢
+    unfold requireInternal
     cases hst : getRegisteredStatus s ns ver lazy with
     | found tl =>
-      simp only [hst] at hub ⊢
-      refine ⟨Post.refl hinv _, ?_⟩
+      simp only
+      refine ⟨Post.refl hinv hlzr _, ?_⟩
       intro t ht
       simp only [Except.ok.injEq] at ht
       subst ht
@@ -1079,101 +1083,134 @@ theorem require_post {fs : FS} {rank : Str → Nat} (hr : Ranked fs rank) :
       · exact h
       · rw [hl] at h; cases h
     | conflict v =>
-      simp only [hst] at hub ⊢
-      exact ⟨Post.refl hinv _, by intro t h; cases h⟩
-    | absent b =>
-      simp only [hst] at hub ⊢
-      obtain ⟨habsE, habsL⟩ := status_absent hst
-      cases hfile : findFile fs ns ver path with
+      simp only
+      exact ⟨Post.refl hinv hlzr _, by intro t h; cases h⟩
+    | absent o =>
+      cases o with
+      | some l =>
+        simp only
+        obtain ⟨hE, hL, _, hv⟩ := status_absent_some hst
+        obtain ⟨hn, _, hsrc, hrank, habsE, hlz⟩ := promote_hyps hinv hlzr hE hL
+        obtain ⟨hp, hok⟩ := register_post hreqOK s l.source false l.tl hinv hlzr hsrc hrank habsE
+          (by intro h; cases h) hlz
+        have hn' : l.tl.hdr.ns = ns := hn
+        refine ⟨hn' ▸ hp, ?_⟩
+        intro t ht
+        obtain ⟨h1, h2⟩ := hok t ht
+        subst h1
+        exact ⟨hn', hv, fun hl => (h2 rfl).imp (fun l' h => ⟨h.1, h.2.1⟩)⟩
       | none =>
-        simp only [hfile] at hub ⊢
-        exact ⟨Post.refl hinv _, by intro t h; cases h⟩
-      | some f =>
-        simp only [hfile] at hub ⊢
-        have hinv0 : Inv fs { s with nextId := s.nextId + 1 } := hinv.congr rfl rfl
-        have hp0 : Post fs rank s { s with nextId := s.nextId + 1 } (rank ns + 1) :=
-          ⟨hinv0, fun _ h => h, ⟨fun _ h => Or.inl h, fun _ h => Or.inl h⟩, rfl⟩
-        split_ifs at hub ⊢ with hns hver
-        · exact ⟨hp0, by intro t h; cases h⟩
-        · exact ⟨hp0, by intro t h; cases h⟩
-        · have hns' : f.hdr.ns = ns := by
-            by_contra hne; exact hns hne
-          have hfa := findFile_fileAt hfile
-          have hrank : HdrRanked rank f.hdr := fun d hd dn dv hsd => hr f.path f.hdr hfa d hd dn dv hsd
-          obtain ⟨hp, hok⟩ := register_post hreqOK hmono { s with nextId := s.nextId + 1 } f.path lazy
-            ⟨s.nextId, f.hdr⟩ hinv0 (Or.inr hfa) hrank (by rw [hns']; exact habsE)
-            (by intro hl; rw [hns']; exact habsL hl) hub
-          refine ⟨Post.congr_left (s0 := { s with nextId := s.nextId + 1 }) rfl rfl rfl (hns' ▸ hp), ?_⟩
-          intro t ht
-          obtain ⟨h1, h2⟩ := hok t ht
-          subst h1
-          refine ⟨hns', ?_, fun hl => (h2 hl).imp (fun l h => ⟨h.1, h.2.1⟩)⟩
-          intro v hv
-          subst hv
-          have hfv := findFile_version hfile
-          rw [hfv] at hver
-          simpa using hver
+        simp only
+        obtain ⟨habsE, habsL⟩ := status_absent_none hst
+        cases hfile : findFile fs ns ver path with
+        | none =>
+          simp only
+          exact ⟨Post.refl hinv hlzr _, by intro t h; cases h⟩
+        | some f =>
+          simp only
+          have hinv0 : Inv fs { s with nextId := s.nextId + 1 } := hinv.congr rfl rfl
+          have hp0 : Post fs rank s { s with nextId := s.nextId + 1 } (rank ns + 1) :=
+            ⟨hinv0, hlzr, fun _ h => h, ⟨fun _ h => Or.inl h, fun _ h => Or.inl h⟩, rfl⟩
+          split_ifs with hns hver
+          · exact ⟨hp0, by intro t h; cases h⟩
+          · exact ⟨hp0, by intro t h; cases h⟩
+          · have hns' : f.hdr.ns = ns := by
+              by_contra hne; exact hns hne
+            have hfa := findFile_fileAt hfile
+            have hrank : HdrRanked rank f.hdr := fun d hd dn dv hsd => hr f.path f.hdr hfa d hd dn dv hsd
+            obtain ⟨hp, hok⟩ := register_post hreqOK { s with nextId := s.nextId + 1 } f.path lazy
+              ⟨s.nextId, f.hdr⟩ hinv0 hlzr (Or.inr hfa) hrank (by rw [hns']; exact habsE)
+              (by intro _; rw [hns']; exact habsL)
+              (by
+                intro l' hl' hn'
+                exact absurd (hn'.trans hns') (lookupTbl_none.mp habsL l' hl'))
+            refine ⟨Post.congr_left (s0 := { s with nextId := s.nextId + 1 }) rfl rfl rfl (hns' ▸ hp), ?_⟩
+            intro t ht
+            obtain ⟨h1, h2⟩ := hok t ht
+            subst h1
+            refine ⟨hns', ?_, fun hl => (h2 hl).imp (fun l h => ⟨h.1, h.2.1⟩)⟩
+            intro v hv
+            subst hv
+            have hfv := findFile_version hfile
+            rw [hfv] at hver
+            simpa using hver
 
+theorem reqOK_require {fs : FS} {rank : Str → Nat} (hr : Ranked fs rank) (fuel : Nat) :
+    ReqOK fs rank (fun s' dn dv => requireInternal fs fuel s' dn (some dv) false s'.searchPath) := by
+  intro s' dn dv hinv' hlzr'
+  obtain ⟨hp, hok⟩ := require_post hr fuel s' dn (some dv) false s'.searchPath hinv' hlzr'
+  refine ⟨hp, ?_⟩
+  intro tl htl
+  obtain ⟨h1, h2, h3⟩ := hok tl htl
+  obtain ⟨l, hl, hlt⟩ := h3 rfl
+  exact ⟨l, hl, by unfold Loaded.ns; rw [hlt]; exact h1, by rw [hlt]; exact h2 dv rfl⟩
 
-/-- one `g_irepository_load_typelib` under the invariant -/
+/-- one `g_irepository_load_typelib` under the invariant: the state afterwards, and on success an
+    eagerly loaded entry (unless the LAZY flag was given) of that namespace and version; registered
+    from `hdr` itself under "<builtin>" when the namespace was in neither table -/
 theorem load_post {fs : FS} {rank : Str → Nat} (hr : Ranked fs rank) (fuel : Nat) (s : Repo) (hdr : Hdr)
-    (lazy : Bool) (hinv : Inv fs s) (hrank : HdrRanked rank hdr)
-    (hub : (loadTypelib fs fuel s hdr lazy).1.staleKey = false) :
-    Post fs rank s (loadTypelib fs fuel s hdr lazy).1 (rank hdr.ns + 1) := by
-  have hreqOK : ReqOK fs rank (fun s' dn dv => requireInternal fs fuel s' dn (some dv) false s'.searchPath) := by
-    intro s' dn dv hinv' hub'
-    obtain ⟨hp, hok⟩ := require_post hr fuel s' dn (some dv) false s'.searchPath hinv' hub'
-    refine ⟨hp, ?_⟩
-    intro tl htl
-    obtain ⟨h1, h2, h3⟩ := hok tl htl
-    obtain ⟨l, hl, hlt⟩ := h3 rfl
-    exact ⟨l, hl, by unfold Loaded.ns; rw [hlt]; exact h1, by rw [hlt]; exact h2 dv rfl⟩
-  have hmono : StaleMono (fun s' dn dv => requireInternal fs fuel s' dn (some dv) false s'.searchPath) :=
-    fun s' dn dv hs' => require_stale fs fuel s' dn (some dv) false s'.searchPath hs'
+    (lazy : Bool) (hinv : Inv fs s) (hlzr : LazyRanked rank s) (hrank : HdrRanked rank hdr) :
+    Post fs rank s (loadTypelib fs fuel s hdr lazy).1 (rank hdr.ns + 1) ∧
+    (∀ tl, (loadTypelib fs fuel s hdr lazy).2 = .ok tl →
+      tl.hdr.ns = hdr.ns ∧ tl.hdr.ver = hdr.ver ∧
+      (lazy = false → ∃ l ∈ (loadTypelib fs fuel s hdr lazy).1.typelibs, l.tl = tl ∧
+        (getRegisteredStatus s hdr.ns (some hdr.ver) lazy = .absent none →
+          tl.hdr = hdr ∧ l.source = builtinSource))) := by
+  have hreqOK := reqOK_require hr fuel
   have hinv0 : Inv fs { s with nextId := s.nextId + 1 } := hinv.congr rfl rfl
+  have hlzr0 : LazyRanked rank { s with nextId := s.nextId + 1 } := hlzr
   have hp0 : Post fs rank s { s with nextId := s.nextId + 1 } (rank hdr.ns + 1) :=
-    ⟨hinv0, fun _ h => h, ⟨fun _ h => Or.inl h, fun _ h => Or.inl h⟩, rfl⟩
+    ⟨hinv0, hlzr, fun _ h => h, ⟨fun _ h => Or.inl h, fun _ h => Or.inl h⟩, rfl⟩
   have hsame : getRegisteredStatus { s with nextId := s.nextId + 1 } hdr.ns (some hdr.ver) lazy
       = getRegisteredStatus s hdr.ns (some hdr.ver) lazy := rfl
-  unfold loadTypelib at hub ⊢
-  simp only [hsame] at hub ⊢
-  cases hst : getRegisteredStatus s hdr.ns (some hdr.ver) lazy with
-  | found t => simp only [hst] at hub ⊢; exact hp0
-  | conflict v => simp only [hst] at hub ⊢; exact hp0
-  | absent b =>
-    simp only [hst] at hub ⊢
-    obtain ⟨habsE, habsL⟩ := status_absent hst
-    obtain ⟨hp, _⟩ := register_post hreqOK hmono { s with nextId := s.nextId + 1 } builtinSource lazy
-      ⟨s.nextId, hdr⟩ hinv0 (Or.inl rfl) hrank habsE habsL hub
-    exact Post.congr_left (s0 := { s with nextId := s.nextId + 1 }) rfl rfl rfl hp
-
-theorem load_stale (fs : FS) (fuel : Nat) (s : Repo) (hdr : Hdr) (lazy : Bool) (hs : s.staleKey = true) :
-    (loadTypelib fs fuel s hdr lazy).1.staleKey = true := by
   unfold loadTypelib
-  simp only
-  split
-  · simpa using hs
-  · simpa using hs
-  · apply register_stale
-    · intro s' dn dv hs'; exact require_stale fs fuel s' dn (some dv) false s'.searchPath hs'
-    · simpa using hs
-
-theorem step_stale (fs : FS) (fuel : Nat) (s : Repo) (op : Op) (hs : s.staleKey = true) : (step fs fuel s op).staleKey = true := by
-  cases op with
-  | prepend d => simpa [step] using hs
-  | require ns ver lazy => exact require_stale fs fuel s ns ver lazy s.searchPath hs
-  | requirePrivate d ns ver lazy => exact require_stale fs fuel s ns ver lazy [d] hs
-  | load hdr lazy => exact load_stale fs fuel s hdr lazy hs
-  | query => simpa [step] using hs
-
-theorem run_stale (fs : FS) (fuel : Nat) : ∀ ops s, s.staleKey = true → (run fs fuel s ops).staleKey = true := by
-  intro ops
-  induction ops with
-  | nil => intro s hs; simpa [run] using hs
-  | cons op ops ih =>
-    intro s hs
-    simp only [run, List.foldl_cons]
-    exact ih _ (step_stale fs fuel s op hs)
+  simp only [hsame]
+  cases hst : getRegisteredStatus s hdr.ns (some hdr.ver) lazy with
+  | found t =>
+    simp only
+    refine ⟨hp0, ?_⟩
+    intro tl htl
+    simp only [Except.ok.injEq] at htl
+    subst htl
+    obtain ⟨h1, h2, h3⟩ := status_found hst
+    refine ⟨h1, h2 _ rfl, ?_⟩
+    intro hl
+    rcases h3 with ⟨l, hm, hlt⟩ | ⟨h, _⟩
+    · exact ⟨l, hm, hlt, by intro h; cases h⟩
+    · rw [hl] at h; cases h
+  | conflict v =>
+    simp only
+    exact ⟨hp0, by intro tl h; cases h⟩
+  | absent o =>
+    cases o with
+    | some l =>
+      simp only
+      obtain ⟨hE, hL, hlf, hv⟩ := status_absent_some hst
+      subst hlf
+      obtain ⟨hn, _, hsrc, hrk, habsE, hlz⟩ := promote_hyps (s := { s with nextId := s.nextId + 1 }) hinv0 hlzr0 hE hL
+      obtain ⟨hp, hok⟩ := register_post hreqOK { s with nextId := s.nextId + 1 } builtinSource false l.tl
+        hinv0 hlzr0 (Or.inl rfl) hrk habsE (by intro h; cases h) hlz
+      have hn' : l.tl.hdr.ns = hdr.ns := hn
+      refine ⟨Post.congr_left (s0 := { s with nextId := s.nextId + 1 }) rfl rfl rfl (hn' ▸ hp), ?_⟩
+      intro t ht
+      obtain ⟨h1, h2⟩ := hok t ht
+      subst h1
+      refine ⟨hn', hv _ rfl, fun _ => ?_⟩
+      obtain ⟨l', hl', hlt, _⟩ := h2 rfl
+      exact ⟨l', hl', hlt, by intro h; cases h⟩
+    | none =>
+      simp only
+      obtain ⟨habsE, habsL⟩ := status_absent_none hst
+      obtain ⟨hp, hok⟩ := register_post hreqOK { s with nextId := s.nextId + 1 } builtinSource lazy
+        ⟨s.nextId, hdr⟩ hinv0 hlzr0 (Or.inl rfl) hrank habsE (fun _ => habsL)
+        (by intro l' hl' hn'; exact absurd hn' (lookupTbl_none.mp habsL l' hl'))
+      refine ⟨Post.congr_left (s0 := { s with nextId := s.nextId + 1 }) rfl rfl rfl hp, ?_⟩
+      intro t ht
+      obtain ⟨h1, h2⟩ := hok t ht
+      subst h1
+      refine ⟨rfl, rfl, fun hl => ?_⟩
+      obtain ⟨l', hl', hlt, hsrc⟩ := h2 hl
+      exact ⟨l', hl', hlt, fun _ => ⟨rfl, hsrc habsL⟩⟩
 
 /-- the directories prepended by a history, in call order -/
 def prepends : List Op → List Str
@@ -1182,40 +1219,36 @@ def prepends : List Op → List Str
   | _ :: ops => prepends ops
 
 theorem step_inv {fs : FS} {rank : Str → Nat} (hr : Ranked fs rank) (fuel : Nat) (s : Repo) (op : Op)
-    (hinv : Inv fs s) (hok : OpOk rank s op) (hub : (step fs fuel s op).staleKey = false) :
-    Inv fs (step fs fuel s op) ∧
+    (hinv : Inv fs s) (hlzr : LazyRanked rank s) (hok : OpOk rank s op) :
+    Inv fs (step fs fuel s op) ∧ LazyRanked rank (step fs fuel s op) ∧
       (step fs fuel s op).searchPath = (prepends [op]).reverse ++ s.searchPath := by
   cases op with
-  | prepend d => exact ⟨hinv.congr rfl rfl, by simp [step, prepends, prependSearchPath]⟩
+  | prepend d => exact ⟨hinv.congr rfl rfl, hlzr, by simp [step, prepends, prependSearchPath]⟩
   | require ns ver lazy =>
-    obtain ⟨hp, _⟩ := require_post hr fuel s ns ver lazy s.searchPath hinv hub
-    exact ⟨hp.inv, by simpa [prepends, step, require, requirePrivate] using hp.path⟩
+    obtain ⟨hp, _⟩ := require_post hr fuel s ns ver lazy s.searchPath hinv hlzr
+    exact ⟨hp.inv, hp.lzr, by simpa [prepends, step, require, requirePrivate] using hp.path⟩
   | requirePrivate d ns ver lazy =>
-    obtain ⟨hp, _⟩ := require_post hr fuel s ns ver lazy [d] hinv hub
-    exact ⟨hp.inv, by simpa [prepends, step, require, requirePrivate] using hp.path⟩
+    obtain ⟨hp, _⟩ := require_post hr fuel s ns ver lazy [d] hinv hlzr
+    exact ⟨hp.inv, hp.lzr, by simpa [prepends, step, require, requirePrivate] using hp.path⟩
   | load hdr lazy =>
-    have hp := load_post hr fuel s hdr lazy hinv hok hub
-    exact ⟨hp.inv, by simpa [prepends, step, require, requirePrivate] using hp.path⟩
-  | query => exact ⟨hinv, by simp [step, prepends]⟩
+    obtain ⟨hp, _⟩ := load_post hr fuel s hdr lazy hinv hlzr hok
+    exact ⟨hp.inv, hp.lzr, by simpa [prepends, step, require, requirePrivate] using hp.path⟩
+  | query => exact ⟨hinv, hlzr, by simp [step, prepends]⟩
 
 theorem prepends_cons (op : Op) (ops : List Op) : prepends (op :: ops) = prepends [op] ++ prepends ops := by
   cases op <;> simp [prepends]
 
 theorem run_inv {fs : FS} {rank : Str → Nat} (hr : Ranked fs rank) (fuel : Nat) : ∀ ops s, Inv fs s →
-    Guarded fs fuel rank s ops → (run fs fuel s ops).staleKey = false →
+    LazyRanked rank s → Guarded fs fuel rank s ops →
     Inv fs (run fs fuel s ops) ∧ (run fs fuel s ops).searchPath = (prepends ops).reverse ++ s.searchPath := by
   intro ops
   induction ops with
   | nil => intro s hinv _ _; exact ⟨hinv, by simp [run, prepends]⟩
   | cons op ops ih =>
-    intro s hinv hg hub
-    simp only [run, List.foldl_cons] at hub ⊢
-    have hub1 : (step fs fuel s op).staleKey = false := bool_false_of (fun h => by
-      have := run_stale fs fuel ops _ h
-      simp only [run] at this
-      rw [hub] at this; cases this)
-    obtain ⟨hi1, hp1⟩ := step_inv hr fuel s op hinv hg.1 hub1
-    obtain ⟨hi2, hp2⟩ := ih (step fs fuel s op) hi1 hg.2 hub
+    intro s hinv hlzr hg
+    simp only [run, List.foldl_cons]
+    obtain ⟨hi1, hz1, hp1⟩ := step_inv hr fuel s op hinv hlzr hg.1
+    obtain ⟨hi2, hp2⟩ := ih (step fs fuel s op) hi1 hz1 hg.2
     refine ⟨hi2, ?_⟩
     simp only [run] at hp2
     rw [hp2, hp1, prepends_cons op ops]
@@ -1299,25 +1332,33 @@ theorem require_path (fs : FS) : ∀ fuel s ns ver lazy path,
     cases getRegisteredStatus s ns ver lazy with
     | found tl => rfl
     | conflict v => rfl
-    | absent b =>
-      simp only
-      split
-      · rfl
-      · split_ifs
+    | absent o =>
+      have hpf : PathFrame (fun s' dn dv => requireInternal fs fuel s' dn (some dv) false s'.searchPath) :=
+        fun s' dn dv => ih s' dn (some dv) false s'.searchPath
+      cases o with
+      | some l =>
+        simp only
+        exact register_path hpf _ _ _ _
+      | none =>
+        simp only
+        split
         · rfl
-        · rfl
-        · rw [register_path]
-          intro s' dn dv; exact ih s' dn (some dv) false s'.searchPath
+        · split_ifs
+          · rfl
+          · rfl
+          · rw [register_path hpf]
 
 theorem load_path (fs : FS) (fuel : Nat) (s : Repo) (hdr : Hdr) (lazy : Bool) :
     (loadTypelib fs fuel s hdr lazy).1.searchPath = s.searchPath := by
+  have hpf : PathFrame (fun s' dn dv => requireInternal fs fuel s' dn (some dv) false s'.searchPath) :=
+    fun s' dn dv => require_path fs fuel s' dn (some dv) false s'.searchPath
   unfold loadTypelib
   simp only
   split
   · rfl
   · rfl
-  · rw [register_path]
-    intro s' dn dv; exact require_path fs fuel s' dn (some dv) false s'.searchPath
+  · rw [register_path hpf]
+  · rw [register_path hpf]
 
 theorem step_path (fs : FS) (fuel : Nat) (s : Repo) (op : Op) :
     (step fs fuel s op).searchPath = (prepends [op]).reverse ++ s.searchPath := by
@@ -1341,23 +1382,6 @@ theorem run_path (fs : FS) (fuel : Nat) : ∀ ops s,
     simp
 
 /-! ### what the queries report -/
-
-theorem lookupTbl_of_mem : ∀ (tbl : List Loaded) (l : Loaded), l ∈ tbl → (tbl.map Loaded.ns).Nodup →
-    lookupTbl tbl l.ns = some l := by
-  intro tbl
-  induction tbl with
-  | nil => intro l hl; cases hl
-  | cons x xs ih =>
-    intro l hl hnd
-    simp only [List.map_cons, List.nodup_cons] at hnd
-    unfold lookupTbl
-    rcases List.mem_cons.mp hl with rfl | hl
-    · simp
-    · have hne : x.ns ≠ l.ns := by
-        intro heq
-        exact hnd.1 (heq ▸ List.mem_map_of_mem (f := Loaded.ns) hl)
-      rw [List.find?_cons_of_neg (by simpa using hne)]
-      exact ih l hl hnd.2
 
 /-! ### the transitive dependency query only reports reachable dependencies -/
 
